@@ -1,5 +1,6 @@
 import TpmVerif.Base.Trace
 import TpmVerif.Model.FailMode
+import TpmVerif.Model.Frame
 /-! Correspondence checker for C17 traces. -/
 namespace TpmVerif.Check.C17
 open TpmVerif TpmVerif.Model.FailMode
@@ -7,6 +8,7 @@ open TpmVerif TpmVerif.Model.FailMode
 structure CS where
   info : FailInfo := ⟨0, 0, 0⟩
   inFail : Bool := false
+  resumed : Bool := false      -- a suspend/resume happened since the last `failinfo` line: the description must be the same
   rep : Report := {}
   line : Nat := 0
 
@@ -36,7 +38,11 @@ def step (c : CS) (l : Line) : CS :=
       { c with inFail := true }
   | "failinfo" =>
       let c := if c.inFail && l.nat "infail" = 0 then mism c "SPEC[failure-mode-lost] failure mode ended without re-initialisation" else c
-      { c with info := ⟨l.nat "fn", l.nat "line", l.nat "code"⟩ }
+      let now : FailInfo := ⟨l.nat "fn", l.nat "line", l.nat "code"⟩
+      let c := if c.resumed ∧ c.inFail ∧ (now ≠ c.info) then
+          mism c s!"SPEC[failure-description-lost] after suspend/resume the failure is described as function {now.function} line {now.line} code {now.code}; before: function {c.info.function} line {c.info.line} code {c.info.code}"
+        else if c.resumed ∧ c.inFail then branch c "fresume/description-kept" else c
+      { c with info := now, resumed := false }
   | "fcmd" =>
       let req := l.bytes "req"; let rsp := l.bytes "rsp"
       let c := { c with rep := { c.rep with events := c.rep.events + 1 } }
@@ -44,6 +50,10 @@ def step (c : CS) (l : Line) : CS :=
       let c := if l.nat "ret" ≠ 0 then mism c s!"SPEC[process-ret] TPMLIB_Process returned {l.nat "ret"}" else c
       let c := if l.nat "stores" ≠ 0 then mism c s!"SPEC[store-in-failure-mode] {l.nat "stores"} storage write(s) during a command in failure mode" else c
       let c := if !wf rsp then mism c s!"SPEC[malformed-response] {hexOfBytes rsp}" else c
+      -- the answers of failure mode are held to the response grammar of C01: a success parses exactly under its command's schema
+      let c := match TpmVerif.Model.Frame.checkResponse req rsp (l.nat "bufsize") with
+        | some msg => mism c s!"SPEC[malformed-response] in failure mode: {msg}; req={hexOfBytes req} rsp={hexOfBytes rsp}"
+        | none => c
       let exp := respond c.info req
       let cc := rdBE req 6 4
       if rsp ≠ exp then
@@ -61,7 +71,7 @@ def step (c : CS) (l : Line) : CS :=
       let c := if l.nat "infail" ≠ 0 ∧ l.nat "ret" = 0 then
                  mism c "SPEC[maininit-hides-failure] TPMLIB_MainInit returned success although the TPM came up in failure mode" else c
       let c := if l.nat "stores" ≠ 0 then mism c s!"SPEC[store-in-failure-mode] {l.nat "stores"} storage write(s) while resuming in failure mode" else c
-      c
+      { c with resumed := true }
   | "initfail" =>
       let c := branch c s!"initfail/mode={l.nat "mode"}/ret={l.nat "ret"}/infail={l.nat "infail"}"
       let c := if l.nat "infail" ≠ 0 ∧ l.nat "ret" = 0 then
